@@ -4,6 +4,7 @@ import Avfs.Driver.Copy
 import Avfs.Driver.FS
 import Avfs.Driver.OSType
 import Avfs.Driver.OFS
+import Avfs.Driver.Volumes
 /-
   avfsdrv: line-protocol driver. One input line -> exactly one output line.
   Core Lean only (links natively).
@@ -15,6 +16,7 @@ structure DState where
   idmSpec : Idm.Spec := Idm.Spec.init [] []
   fs : FS.FSState := FS.initState
   ofs : Orefa.OState := Orefa.initState Orefa.dummyId Orefa.dummyId
+  vol : Volumes.VState := Volumes.init []
 
 def stepLine (st : DState) (line : String) : DState × String :=
   match (line.trimAscii.toString.splitOn " ").filter (· ≠ "") with
@@ -23,6 +25,7 @@ def stepLine (st : DState) (line : String) : DState × String :=
   | "path" :: rest => (st, Path.exec rest)
   | "fs" :: rest => let (s, o) := FS.exec st.fs rest; ({ st with fs := s }, o)
   | "ofs" :: rest => let (s, o) := Orefa.exec st.ofs rest; ({ st with ofs := s }, o)
+  | "vol" :: rest => let (s, o) := Volumes.exec st.vol rest; ({ st with vol := s }, o)
   | "ostype" :: rest => (st, OSType.exec rest)
   | "copy" :: rest => (st, Copy.exec rest)
   | "pathspec" :: rest => (st, Path.specExec rest)
